@@ -49,42 +49,42 @@ type Ctx struct {
 	stubsHit    map[string]int
 	intrHit     map[string]int
 
-	lazyGlobals []lazyGlobal
-	pendingEnv  []Value
-	stack       []string
-	sentinels   map[string]*Iface
-	usedNames   map[string]bool
-	assertLabels map[string]int
-	freezes     []freezeRec
-	dfas        map[string]*dfa
-	regexps     map[int]string
-	guardOff    int
-	decodeCache map[string]decodeRes
-	forks       []*FState
-	pendingObs  []pendingOb
-	concrete    *replayFile
-	liftGuard   *Term
-	mergeStat   map[string]int
-	plainErr    *ErrObj
-	syncMaps    map[string]int
-	inInit      bool
-	dbgModel    map[string]uint64
+	lazyGlobals     []lazyGlobal
+	pendingEnv      []Value
+	stack           []string
+	sentinels       map[string]*Iface
+	usedNames       map[string]bool
+	assertLabels    map[string]int
+	freezes         []freezeRec
+	dfas            map[string]*dfa
+	regexps         map[int]string
+	guardOff        int
+	decodeCache     map[string]decodeRes
+	forks           []*FState
+	pendingObs      []pendingOb
+	concrete        *replayFile
+	liftGuard       *Term
+	mergeStat       map[string]int
+	plainErr        *ErrObj
+	syncMaps        map[string]int
+	inInit          bool
+	dbgModel        map[string]uint64
 	dbgPendingModel map[string]uint64
-	dbgChoices  map[string]int
-	dbgOrder    []dbgRec
-	dbgPer      map[ssa.Instruction][]string
-	dbgMemo     map[int]uint64
+	dbgChoices      map[string]int
+	dbgOrder        []dbgRec
+	dbgPer          map[ssa.Instruction][]string
+	dbgMemo         map[int]uint64
 
 	// monitors
-	guards    []*guardRec
-	spawned   []*spawnRec
-	trace     []string
-	unwind    int
-	stepLimit int
-	mapOrder  int // 0 insertion, 1 reverse
-	checkAlts bool
+	guards      []*guardRec
+	spawned     []*spawnRec
+	trace       []string
+	unwind      int
+	stepLimit   int
+	mapOrder    int // 0 insertion, 1 reverse
+	checkAlts   bool
 	eagerBranch bool
-	verbose bool
+	verbose     bool
 }
 
 type lazyGlobal struct {
@@ -371,16 +371,16 @@ type deferRec struct {
 }
 
 type FState struct {
-	st     *State
-	fi     *FuncInfo
-	regs   []Value
-	block  int
-	iters  map[int]int // header block -> iteration
-	defers []deferRec
-	key    []int
+	st          *State
+	fi          *FuncInfo
+	regs        []Value
+	block       int
+	iters       map[int]int // header block -> iteration
+	defers      []deferRec
+	key         []int
 	lastChecked *Term
-	loopTail map[int]*Term // per loop header: last path-condition conjunct when the loop was entered
-	spec bool // speculative state (non-ASCII fork of a string iteration): branch feasibility is checked eagerly
+	loopTail    map[int]*Term // per loop header: last path-condition conjunct when the loop was entered
+	spec        bool          // speculative state (non-ASCII fork of a string iteration): branch feasibility is checked eagerly
 }
 
 func (f *FState) fork() *FState {
